@@ -328,7 +328,8 @@ func (s *Scanner) scanHexadecimalEscape(numDigits int) string {
 	var escapedValue = s.scanExactNumberOfHexDigits(numDigits, false)
 
 	if escapedValue >= 0 {
-		return strconv.Itoa(escapedValue)
+		// the escape denotes the character with that code point, not its decimal digits
+		return string(rune(escapedValue))
 	} else {
 		s.error(M_Hexadecimal_digit_expected)
 		return ""
